@@ -151,7 +151,37 @@ func tRandomBytes(r *fw.Rand, e *epoch, k int) *spec {
 
 // --- truncated PUSH ----------------------------------------------------------
 
+// pushTail is the directed family: PUSH1 3; JUMP; JUMPDEST; <JUMPDEST padding>;
+// PUSHn with only `have` of its n operand bytes present, total length `total`.
+// The leading in-range jump forces the (lazy) JUMPDEST analysis to walk over the
+// truncated tail.
+func pushTail(total, n, have int) []byte {
+	code := []byte{opPUSH1, 3, opJUMP, opJUMPDEST}
+	for len(code)+1+have < total {
+		code = append(code, opJUMPDEST)
+	}
+	code = append(code, byte(opPUSH1+n-1))
+	for i := 0; i < have; i++ {
+		code = append(code, byte(0x5b))
+	}
+	return code
+}
+
+var pushTailNs = []int{32, 31, 25, 24, 17, 16, 9, 8, 1}
+
 func tTruncPush(r *fw.Rand, e *epoch, k int) *spec {
+	if k%2 == 0 {
+		// directed sub-class, rotating on the case index: every length residue mod 8,
+		// n over the bitmap-word boundaries, no operand byte or all but one
+		j := k / 2
+		n := pushTailNs[(j/8)%len(pushTailNs)]
+		have := []int{0, n - 1}[(j/72)%2]
+		total := 8*(1+(j/144+j/8)%8) + j%8 // 8..71, residue j%8
+		if total < 5+have {
+			total += 8 * ((5 + have - total + 7) / 8)
+		}
+		return &spec{Code: hx(pushTail(total, n, have)), Input: hx(randInput(r)), Gas: 100000}
+	}
 	g := newGen(r, e)
 	for i, n := 0, r.Intn(4); i < n; i++ {
 		g.stmt(false)
@@ -160,8 +190,13 @@ func tTruncPush(r *fw.Rand, e *epoch, k int) *spec {
 	have := r.Intn(n) // fewer operand bytes than the instruction wants
 	switch r.Intn(3) {
 	case 0: // fall into it
-	case 1: // jump to it (not a JUMPDEST: must fail cleanly)
-		g.p.push(uint64(len(g.p.b) + 4)).op(opJUMP)
+	case 1: // jump to the PUSH opcode itself (in range, not a JUMPDEST: must fail cleanly)
+		at := len(g.p.b)
+		if at+3 < 256 {
+			g.p.push(uint64(at + 3)).op(opJUMP)
+		} else {
+			g.p.pushN(2, []byte{byte((at + 4) >> 8), byte(at + 4)}).op(opJUMP)
+		}
 	default: // a JUMPDEST right before it
 		g.p.op(opJUMPDEST)
 	}
